@@ -35,6 +35,10 @@ func cmdProbe(args []string) int {
 			for k := range wf.Steps {
 				if wf.Steps[k].Src == victim {
 					wf.Steps[k].Src = "probefail-" + victim
+				} else {
+					// the other steps' temporary deployments take a while: whatever order (or overlap) the schemas are read
+					// in, none of them may be in progress, open, or still to come once Prepare has returned
+					s.set(wf.Steps[k].Src, Behaviour{Outcome: "success", ProbeDelayMs: 25 + cr.intn(30)})
 				}
 			}
 		}
@@ -50,8 +54,21 @@ func cmdProbe(args []string) int {
 		t0 := time.Now()
 		var perr error
 		g := guarded(15*time.Second, func() { _, perr = prepareYAML(reg, f, text, nil) })
+		s.mu.Lock()
+		marker := s.seq
+		s.mu.Unlock()
+		balanceAtReturn := s.balance()
+		late := 0
+		if mode == "deploy_fail" && len(wf.Steps) > 1 {
+			time.Sleep(150 * time.Millisecond)
+			for _, e := range s.snapshot() {
+				if e.Seq > marker {
+					late++
+				}
+			}
+		}
 		s.probe.Store(false)
-		out := map[string]any{"kind": "probe", "id": fmt.Sprintf("probe-%d-%d", c.seed, i), "mode": mode, "yaml": text,
+		out := map[string]any{"kind": "probe", "late_events": late, "balance_at_return": balanceAtReturn, "id": fmt.Sprintf("probe-%d-%d", c.seed, i), "mode": mode, "yaml": text,
 			"victim": victim, "prepared": perr == nil && g.Panic == "" && !g.Timeout, "panic": g.Panic, "timeout": g.Timeout,
 			"wall_ms": time.Since(t0).Milliseconds(), "probe_balance": s.balance(), "goroutine_delta": goroutineDelta(base),
 			"log": s.snapshot()}
